@@ -5,6 +5,7 @@ import NaijaVerif.Driver.Util
 /-! Line protocol `depth` (names are Rust function names):
 ```
 budget                      -> <STACK_BUDGET in bytes>
+limits                      -> main=<n> env=<n> overshoot=<n> headroom=<n>   constants of the arithmetic obligation (bytes; driver only)
 guard <fn>                  -> 1 | 0           does <fn> probe the stack on entry (model: guarded frame)
 rec <fn>                    -> 1 | 0           is <fn> a frame of the model's recursive core
 path <f1>,<f2>,…            -> ok frames=<n> guarded=<k> maxfree=<m> | no-edge <a>-><b> | empty
@@ -56,6 +57,7 @@ def parseCosts (s : String) : Fn → Nat :=
 def step (_ : Unit) (line : String) : Unit × String :=
   match words line with
   | ["budget"] => ((), toString Gen.Stack.stackBudget)
+  | ["limits"] => ((), s!"main={mainStack} env={envAllowance} overshoot={overshootAllowance} headroom={headroom}")
   | ["guard", f] => ((), bit (rustGraph.guarded (Bytes.ofString f)))
   | ["rec", f] => ((), bit (coreNames.contains (Bytes.ofString f)))
   | ["path", p] =>
